@@ -65,6 +65,10 @@ def configs(tier):
                     continue
                 c = dict(entry=entry, graph=g, I0=I0, R0=R0, full=False, tags=[g] + (['R0'] if R0 else []))
                 sim_bounds(entry, c, tier)
+                if entry == 'fast_nonMarkov_SIS':
+                    c['max_infections'] = 3      # (each path is run twice here; 4 episodes exceed the budget)
+                if tier == 'thorough' and g == 'S3' and I0 == [0] and entry in ('fast_SIR', 'fast_nonMarkov_SIR'):
+                    continue                     # hub start on the star: too many orderings for two runs per path
                 c.pop('zero_duration', None)
                 if entry in ('Gillespie_SIS',):
                     c['truncate'] = True
